@@ -95,7 +95,7 @@ class OctaveScaling(ScalingFunction):
         self.low_hz = low_hz
 
     def scale_to_hertz(self, scale: float) -> float:
-        return (2 ** scale) * max(1e-10, self.low_hz)
+        return (2.0 ** scale) * max(1e-10, self.low_hz)
 
     def hertz_to_scale(self, hertz: float) -> float:
         return np.log2(hertz / max(1e-10, self.low_hz))
